@@ -262,6 +262,33 @@ def run(ctx):
         else:
             ctx.ok('C14.6-fragment-header-section', 'receive_message', 'the atom-cache section of a first fragment is not sliced by the reference count')
 
+    # a slot of the persistent cache changes only when the sender overwrites THAT slot
+    ctx.rule('C14.3-cache-slots', 'AtomCache::insert(index, atom) writes slot `index` and nothing else: no other slot is removed or rewritten as a side effect (the same text may live in two slots)', floor=1)
+    for q in sorted(x for x in ctx.F.bodies if x.split('::{')[0] == DEC + 'AtomCache::insert'):
+        IB = P.B(q)
+        others = []
+        good = 0
+        for bb, t in IB.calls():
+            names = callee_names(t)
+            if not t['args'] or not any('HashMap' in n or 'BTreeMap' in n or 'Vec' in n for n in names):
+                continue
+            m = names[0].rsplit('::', 1)[1]
+            if m in ('insert',):
+                ko = unwrap(IB.origin(t['args'][1]))[0] if len(t['args']) > 1 else None
+                if ko is not None and ko[0] == 'arg' and IB.local_name(ko[1]) in ('index', 'idx', 'slot'):
+                    good += 1
+                else:
+                    others.append((bb, 'insert under another key'))
+            elif m in ('remove', 'clear', 'retain', 'drain', 'remove_entry', 'truncate', 'swap_remove'):
+                others.append((bb, m))
+        if others:
+            ctx.bad('C14.3-cache-slots', 'AtomCache::insert', 'inserting into one slot also performs %s on the cache: an entry of ANOTHER slot disappears, and a later reference to it (which the sender may legitimately re-use) cannot be resolved'
+                    % sorted({m for _, m in others}), ctx.where(IB, others[0][0]), key='WHO:%sAtomCache::insert:touches-other-slots' % DEC)
+        elif good:
+            ctx.ok('C14.3-cache-slots', 'AtomCache::insert', 'one insert keyed by the index parameter', ctx.where(IB))
+        else:
+            ctx.undecided('C14.3-cache-slots', 'AtomCache::insert', 'no map insertion recognised')
+
 
 def _selected_by_parity(B, mask_op):
     """the mask local is assigned constants in branches of a switch on (count % 2 == 0) / (count & 1)"""
